@@ -47,6 +47,13 @@ Record worker := mkWorker {
   w_sync_failed : bool;       (* a sync failed and no later sync has succeeded yet *)
   w_postponed : list N }.     (* removals requested while w_sync_failed *)
 
+(* history variables: they record what happened and influence nothing *)
+Record ghost := mkGhost {
+  g_writes : list (wop * wres);              (* every write call with its result, in call order *)
+  g_flushed : list (option N * N * nat);     (* flush calls: callback id, journal end offset, number of write calls before it *)
+  g_removals : list (list N * N);            (* RemoveChunks sent: chunk ids, journal end offset of the flush that carried them *)
+  g_created : list N }.                      (* chunk files ever created (or found at open), oldest first *)
+
 Record sys2 := mkSys2 {
   z_core : core;
   z_todo : list xeff;          (* effects of the API call in progress still to perform *)
@@ -54,7 +61,8 @@ Record sys2 := mkSys2 {
   z_queue : list wreq;
   z_w : worker;
   z_acks : list (N * bool);
-  z_dropped : bool }.
+  z_dropped : bool;
+  z_ghost : ghost }.
 
 (* what an event did that an observer of system calls and callbacks can see *)
 Inductive vis :=
@@ -73,17 +81,19 @@ Inductive zev :=
 | ZDrop.                         (* the caller drops the store *)
 
 Definition set_core (z : sys2) (k : core) : sys2 :=
-  mkSys2 k (z_todo z) (z_disk z) (z_queue z) (z_w z) (z_acks z) (z_dropped z).
+  mkSys2 k (z_todo z) (z_disk z) (z_queue z) (z_w z) (z_acks z) (z_dropped z) (z_ghost z).
 Definition set_todo (z : sys2) (t : list xeff) : sys2 :=
-  mkSys2 (z_core z) t (z_disk z) (z_queue z) (z_w z) (z_acks z) (z_dropped z).
+  mkSys2 (z_core z) t (z_disk z) (z_queue z) (z_w z) (z_acks z) (z_dropped z) (z_ghost z).
 Definition set_disk (z : sys2) (d : disk) : sys2 :=
-  mkSys2 (z_core z) (z_todo z) d (z_queue z) (z_w z) (z_acks z) (z_dropped z).
+  mkSys2 (z_core z) (z_todo z) d (z_queue z) (z_w z) (z_acks z) (z_dropped z) (z_ghost z).
 Definition set_queue (z : sys2) (q : list wreq) : sys2 :=
-  mkSys2 (z_core z) (z_todo z) (z_disk z) q (z_w z) (z_acks z) (z_dropped z).
+  mkSys2 (z_core z) (z_todo z) (z_disk z) q (z_w z) (z_acks z) (z_dropped z) (z_ghost z).
 Definition set_w (z : sys2) (w : worker) : sys2 :=
-  mkSys2 (z_core z) (z_todo z) (z_disk z) (z_queue z) w (z_acks z) (z_dropped z).
+  mkSys2 (z_core z) (z_todo z) (z_disk z) (z_queue z) w (z_acks z) (z_dropped z) (z_ghost z).
 Definition add_ack (z : sys2) (c : N) (ok : bool) : sys2 :=
-  mkSys2 (z_core z) (z_todo z) (z_disk z) (z_queue z) (z_w z) (z_acks z ++ [(c, ok)]) (z_dropped z).
+  mkSys2 (z_core z) (z_todo z) (z_disk z) (z_queue z) (z_w z) (z_acks z ++ [(c, ok)]) (z_dropped z) (z_ghost z).
+Definition set_ghost (z : sys2) (g : ghost) : sys2 :=
+  mkSys2 (z_core z) (z_todo z) (z_disk z) (z_queue z) (z_w z) (z_acks z) (z_dropped z) g.
 
 Definition w_set_batch (w : worker) (b : option batch) : worker :=
   mkWorker (w_files w) (w_alive w) b (w_sync_failed w) (w_postponed w).
@@ -105,13 +115,24 @@ Definition zcall (z : sys2) (o : op) : option (sys2 * list vis) :=
       | Panic => None
       | Ret (k, r, effs) =>
         let t := flat_map expand_eff effs in
-        let z1 := set_todo (set_core z k) t in
+        let g := z_ghost z in
+        let z1 := set_ghost (set_todo (set_core z k) t)
+                    (mkGhost (g_writes g ++ [(w, r)]) (g_flushed g) (g_removals g) (g_created g)) in
         (* the call returns when its effects are done; the result is known now *)
         Some (z1, [VResult (ResW r)])
       end
     | OFlush cb =>
       let '(k, effs) := do_flush (z_core z) cb in
-      Some (set_todo (set_core z k) (flat_map expand_eff effs), [VResult ResUnit])
+      let g := z_ghost z in
+      let upto := ck_end (k_open (z_core z)) in
+      let cbid := if cb then Some (k_next_cb (z_core z)) else None in
+      let g' := mkGhost (g_writes g) (g_flushed g ++ [(cbid, upto, length (g_writes g))])
+                        (match k_removed (z_core z) with
+                         | [] => g_removals g
+                         | ids => g_removals g ++ [(ids, upto)]
+                         end)
+                        (g_created g) in
+      Some (set_ghost (set_todo (set_core z k) (flat_map expand_eff effs)) g', [VResult ResUnit])
     | ORead from to =>
       let '(k, items) := do_read (z_core z) (z_disk z) from to in
       Some (set_core z k, [VResult (ResRead items)])
@@ -136,7 +157,10 @@ Definition zeff (z : sys2) : option (sys2 * list vis) :=
   match z_todo z with
   | [] => None
   | XCreate id :: t =>
-    Some (set_todo (set_disk z (disk_put (mkFile id [] 0) (z_disk z))) t, [VCreate id])
+    let g := z_ghost z in
+    Some (set_ghost (set_todo (set_disk z (disk_put (mkFile id [] 0) (z_disk z))) t)
+                    (mkGhost (g_writes g) (g_flushed g) (g_removals g) (g_created g ++ [id])),
+          [VCreate id])
   | XWriteHead id data :: t =>
     Some (set_todo (set_disk z (disk_append id data (z_disk z))) t,
           [VWrite true id (N.of_nat (length data)) true])
@@ -304,7 +328,7 @@ Definition zstep (z : sys2) (e : zev) : option (sys2 * list vis) :=
   | ZWork ok => zwork z ok
   | ZDrop =>
     match z_todo z with
-    | [] => Some (mkSys2 (z_core z) [] (z_disk z) (z_queue z) (z_w z) (z_acks z) true, [])
+    | [] => Some (mkSys2 (z_core z) [] (z_disk z) (z_queue z) (z_w z) (z_acks z) true (z_ghost z), [])
     | _ => None
     end
   end.
@@ -324,7 +348,8 @@ Fixpoint zrun (z : sys2) (es : list zev) : option (sys2 * list vis) :=
   end.
 
 Definition sys2_of (y : sys) : sys2 :=
-  mkSys2 (y_core y) [] (y_disk y) (y_queue y) (mkWorker (y_files y) true None false []) (y_acks y) false.
+  mkSys2 (y_core y) [] (y_disk y) (y_queue y) (mkWorker (y_files y) true None false []) (y_acks y) false
+         (mkGhost [] [] [] (map f_id (y_disk y))).
 
 Definition zinit (cfg : config) (d : disk) : option sys2 :=
   match open_dir cfg d with
